@@ -236,7 +236,8 @@ Definition drain_all (s : state) : list (option N) := drain (N.to_nat (cap s + 2
 
 (* ---------- specification vocabulary ---------- *)
 (* the ring position of the j-th accepted item, as the code computes it: (unsigned int)(i0 + j) % theCapacity *)
-Definition slotidx (s : state) (j : N) : N := ((i0 s + j) mod W32) mod cap s.
+Definition sidx (c i j : N) : N := wrap32 (i + j) mod c.
+Definition slotidx (s : state) (j : N) : N := sidx (cap s) (i0 s) j.
 
 Fixpoint rangeN (from : N) (n : nat) : list N :=
   match n with O => [] | S k => from :: rangeN (N.succ from) k end.
